@@ -1,15 +1,19 @@
 #!/usr/bin/env python3
 """mkmut.py <out.patch> <file relative to /repo> <old text> <new text> [<file> <old> <new>]...
-Writes a unified diff (git apply compatible) replacing exactly one occurrence of old by new."""
+Writes a unified diff (git apply compatible); every old text must occur exactly once."""
 import difflib, sys
 out = sys.argv[1]
 args = sys.argv[2:]
-res = []
+files = {}
+orig = {}
 for i in range(0, len(args), 3):
     f, old, new = args[i:i+3]
-    a = open("/repo/" + f).read()
-    if a.count(old) != 1:
-        sys.exit("old text occurs %d times in %s" % (a.count(old), f))
-    b = a.replace(old, new)
-    res.append("".join(difflib.unified_diff(a.splitlines(True), b.splitlines(True), "a/" + f, "b/" + f)))
+    if f not in files:
+        orig[f] = files[f] = open("/repo/" + f).read()
+    if files[f].count(old) != 1:
+        sys.exit("old text occurs %d times in %s" % (files[f].count(old), f))
+    files[f] = files[f].replace(old, new)
+res = []
+for f in files:
+    res.append("".join(difflib.unified_diff(orig[f].splitlines(True), files[f].splitlines(True), "a/" + f, "b/" + f)))
 open(out, "w").write("".join(res))
